@@ -112,6 +112,7 @@ structure St where
   delivered : List Dlv := []      -- log of results put on result channels
   wroteAs : List (Nat × Nat) := []   -- (call, wire id under which its request was registered)
   handed : List Nat := []         -- every call ever passed to QueueRPC
+  unsendable : List Nat := []     -- calls whose request could not be marshalled (completed locally)
   dropped : List Nat := []        -- calls given up because their own context had ended
   deriving Repr
 
@@ -123,6 +124,7 @@ inductive IO where
 inductive Act where
   | queueBatched (c : Nat)        -- QueueRPC of a batchable call (rpcQueueSize > 1)
   | queueDirect (c : Nat)         -- QueueRPC of an unbatched call (SkipBatch, scan, …)
+  | queueUnsendable (c : Nat)     -- QueueRPC of an unbatched call whose request fails to marshal
   | cancel (c : Nat)              -- the call's context ends
   | write (w : Who) (last : Bool) (r : IO)   -- a conn.Write unit of w's frame returns
   | arm (w : Who) (r : IO)        -- conn.SetReadDeadline(now+timeout) returns
@@ -305,6 +307,17 @@ def step (s : St) : Act → Option St
       if s.done then none else some { s with dropped := s.dropped ++ [c] }
     else if s.done then some { s with delivered := s.delivered ++ [Dlv.mk c .connErr none] }
     else some (startSend s (.direct c) (.single c))
+  | .queueUnsendable c =>
+    -- send: register (the id is consumed), marshalProto fails before the request is counted in
+    -- flight or written; trySend unregisters it again and QueueRPC completes the call with the
+    -- (non connection-level) error
+    if s.handed.contains c then none else
+    let s := { s with handed := s.handed ++ [c] }
+    if s.ctxDone.contains c then
+      if s.done then none else some { s with dropped := s.dropped ++ [c] }
+    else if s.done then some { s with delivered := s.delivered ++ [Dlv.mk c .connErr none] }
+    else some { s with nextId := s.nextId + 1, unsendable := s.unsendable ++ [c],
+                       delivered := s.delivered ++ [Dlv.mk c .fatal none] }
   | .cancel c =>
     if s.ctxDone.contains c then none else
     -- a QueueBatch caller blocked on the queue gives up
